@@ -17,12 +17,13 @@ import (
 // HarnessConfig: bounds and options of one harness run.
 type HarnessConfig struct {
 	Config
-	Workers       int
-	MaxPaths      int
-	SolverTimeout time.Duration
-	TimeBudget    time.Duration
-	DiffSolvers   bool
-	StopAtFirst   bool // stop at the first unlisted violation
+	Workers          int
+	MaxPaths         int
+	SolverTimeout    time.Duration
+	TimeBudget       time.Duration
+	DiffSolvers      bool
+	StopAtFirst      bool // stop at the first unlisted violation
+	PathSolverBudget time.Duration
 }
 
 type Finding struct {
@@ -67,7 +68,7 @@ type worker struct {
 func (w *worker) runPath(prefix []decision) (res PathResult, pending [][]decision, funcs, caveats map[string]bool) {
 	ctx := NewTermCtx()
 	w.solver.Reset(ctx)
-	ex := &Exec{ctx: ctx, solver: w.solver, trace: prefix, maxSteps: w.cfg.MaxSteps, maxDepth: w.cfg.MaxDepth, maxFrames: w.cfg.MaxFrames}
+	ex := &Exec{ctx: ctx, solver: w.solver, trace: prefix, maxSteps: w.cfg.MaxSteps, maxDepth: w.cfg.MaxDepth, maxFrames: w.cfg.MaxFrames, solverBudget: w.cfg.PathSolverBudget}
 	cfgCopy := w.cfg.Config
 	i := &interpreter{
 		prog: w.prog, ctx: ctx, ex: ex, cfg: &cfgCopy,
@@ -78,6 +79,11 @@ func (w *worker) runPath(prefix []decision) (res PathResult, pending [][]decisio
 	}
 	root := i.newThread()
 	i.cur = root
+	if os.Getenv("VERIF_SLOW_QUERIES") != "" {
+		ex.slowHook = func(d time.Duration) {
+			fmt.Fprintf(os.Stderr, "SLOW QUERY %.1fs at %s\n%s\n", d.Seconds(), i.posString(i.lastPos), i.stackString())
+		}
+	}
 	func() {
 		defer func() {
 			r := recover()
@@ -184,6 +190,21 @@ func RunHarness(prog *ssa.Program, fn *ssa.Function, cfg *HarnessConfig) *Harnes
 		nw = 1
 	}
 	var wg sync.WaitGroup
+	doneCh := make(chan struct{})
+	go func() {
+		tk := time.NewTicker(15 * time.Second)
+		defer tk.Stop()
+		for {
+			select {
+			case <-doneCh:
+				return
+			case <-tk.C:
+				mu.Lock()
+				fmt.Fprintf(os.Stderr, "  [%s %.0fs] paths=%d pending=%d active=%d outcomes=%v queries=%d\n", fn.Name(), time.Since(t0).Seconds(), hr.Paths, len(stack), active, hr.Outcomes, GlobalStats.Queries)
+				mu.Unlock()
+			}
+		}
+	}()
 	for k := 0; k < nw; k++ {
 		wg.Add(1)
 		go func() {
@@ -247,8 +268,8 @@ func RunHarness(prog *ssa.Program, fn *ssa.Function, cfg *HarnessConfig) *Harnes
 				case oViolation, oPanic, oBound, oDeadlock:
 					hr.Findings = append(hr.Findings, Finding{Kind: res.Kind.String(), Harness: fn.Name(), AssertID: res.AssertID,
 						Msg: res.Msg, Known: res.Known, Trace: res.Trace, Nondets: res.Nondets, Stack: res.Stack})
-					if cfg.StopAtFirst && res.Known == "" {
-						stop = true
+					if (cfg.StopAtFirst || len(hr.Findings) >= 40) && res.Known == "" {
+						stop = true // enough counterexamples: the check fails anyway
 					}
 				case oUnsupported, oUnknown, oEngineError:
 					hr.Inconclusive = append(hr.Inconclusive, fmt.Sprintf("%s: %s [path %s]", res.Kind, res.Msg, res.Trace))
@@ -266,6 +287,7 @@ func RunHarness(prog *ssa.Program, fn *ssa.Function, cfg *HarnessConfig) *Harnes
 		}()
 	}
 	wg.Wait()
+	close(doneCh)
 	hr.Pending = len(stack)
 	if hr.Pending > 0 && len(hr.Findings) == 0 {
 		hr.Inconclusive = append(hr.Inconclusive, fmt.Sprintf("exploration budget exhausted with %d unexplored prefixes (paths=%d)", hr.Pending, hr.Paths))
